@@ -326,8 +326,24 @@ func fmtVerbs(format string, n int) ([]byte, string, bool) {
 		if j >= len(format) {
 			return nil, "", false
 		}
-		if format[j] == '*' || format[j] == '[' {
+		if format[j] == '[' {
 			return nil, "", false
+		}
+		if format[j] == '*' {
+			// width from an operand: it consumes one (integer) operand
+			out = append(out, format[i+1:j+1]...)
+			verbs = append(verbs, 'd')
+			j++
+			for j < len(format) && format[j] >= '0' && format[j] <= '9' {
+				j++
+			}
+			if j >= len(format) {
+				return nil, "", false
+			}
+			out = append(out, format[j])
+			verbs = append(verbs, format[j])
+			i = j
+			continue
 		}
 		if format[j] == '%' {
 			out = append(out, format[i+1:j+1]...)
